@@ -1180,15 +1180,6 @@ impl P2Project {
         files
     }
 
-    /// Number of definitions (modules incl. tests, packages, interfaces) of a file.
-    pub fn definitions_in(&self, f: &FileId) -> usize {
-        let Some(p) = self.project_of(&f.owner) else { return 0 };
-        match p.files.iter().find(|x| x.alive && x.rel == f.rel) {
-            Some(x) => x.items.iter().filter(|i| p.items[**i].alive).count(),
-            None => 1, // an extra file: one module
-        }
-    }
-
     /// Known C25 finding: `sort_filelist` puts a file at the position of its
     /// first definition in topological order.  A listed before B although A
     /// references B is explained by that iff A is a model file with several
